@@ -11,7 +11,7 @@
    finds the NoStalePhase / RoundTrip counterexamples -- the negative control of this model.
 
    Design-level claims checked by TLC over all histories (state graph is finite):
-     C09  RoundTrip, NoStalePhase, SampleClean, TagEquivalence
+     C09  RoundTrip, NoStalePhase, DecodesCleanly, SampleClean, TagEquivalence
      C13  UnphaseOK (NoPhaseLeft + NothingElse), Idempotent, CommutesWithPhase, UnphaseIsConstant *)
 EXTENDS VcfModel, TLC
 CONSTANTS NS,            \* number of samples
@@ -31,7 +31,6 @@ HetSites(g, s) == { i \in Sites : IsHet(Call(g, s, i)) /\ FullyCalled(Call(g, s,
 (* all phasings a run can report for sample s of file g: a subset of the heterozygous sites,
    partitioned into blocks named by their leftmost member, with an allele order per site *)
 Labelings(H) == { lab \in [H -> H] : \A x \in H : lab[x] <= x /\ lab[lab[x]] = lab[x] }
-Orders(g, s, i) == LET c == Call(g, s, i) IN { c.gt, <<c.gt[2], c.gt[1]>> }
 PhasingsOf(g, s) ==
     UNION { UNION { { [i \in Sites |-> IF i \in H THEN [block |-> PosOf(lab[i]), al |-> o[i]] ELSE NoPhase]
                       : o \in [H -> {<<0, 1>>, <<1, 0>>}] }
